@@ -464,6 +464,9 @@ func parseRealms(lines []string) (realms []Realm, err error) {
 			}
 		}
 	}
+	if c != 0 {
+		return nil, errors.New("invalid Realms section in configuration: unpaired curly brackets")
+	}
 	return
 }
 
